@@ -403,6 +403,55 @@ theorem C08_7z_plain {C : Consts} (hC : SzOk C = true) (l : Bool) (a : SzArchive
       · obtain ⟨c, hc, ha⟩ := go_enc_mem hC l _ hdc
         exact hh cs hhc c (List.mem_reverse.mp hc) ha
 
+/-! ### 5b. the reader's state: the verdict is that of the LAST streams info parsed, whatever was parsed or asked before -/
+
+def SzReaderOk (C : Consts) : Bool := C.szAskPure && C.szFoldersLastWriteWins
+
+/-- the current source: `needs_password` is a pure function of `self._folders`, `_folders` is plainly re-assigned -/
+theorem gen_sz_reader_ok : SzReaderOk K = true := by decide
+
+private theorem run_append (C : Consts) (r : SzReader) (a b : List SzEv) :
+    SzReader.run C r (a ++ b) = SzReader.run C (SzReader.run C r a) b := by
+  induction a generalizing r with
+  | nil => rfl
+  | cons e es ih => cases e <;> simp [SzReader.run, ih]
+
+private theorem run_asks {C : Consts} (hC : SzReaderOk C = true) (r : SzReader) (n : Nat) :
+    SzReader.run C r (List.replicate n .ask) = r := by
+  simp only [SzReaderOk, Bool.and_eq_true] at hC
+  induction n with
+  | zero => rfl
+  | succ n ih => simp [List.replicate, SzReader.run, SzReader.ask, hC.1, ih]
+
+/-- For EVERY parse / ask history `before` (the folder of a compressed EncodedHeader parsed first, additional streams,
+    `needs_password()` asked early by the parser or anybody else, any number of times), once the streams info with folders
+    `fs` has been parsed the reader answers `needsPassword fs` — to every later question.  With `C08_7z`: an AES coder in a
+    data folder is reported however the header was stored. -/
+theorem C08_7z_reader_history {C : Consts} (hC : SzReaderOk C = true) (before : List SzEv) (fs : List (List Coder)) (asks : Nat) :
+    szVerdict C (before ++ [.parsed fs] ++ List.replicate asks .ask) = needsPassword C fs := by
+  have hC' := hC
+  simp only [SzReaderOk, Bool.and_eq_true] at hC'
+  unfold szVerdict
+  rw [run_append, run_append, run_asks hC]
+  simp [SzReader.run, SzReader.parsed, SzReader.ask, hC'.1, hC'.2]
+
+theorem C08_7z_reader_encrypted {C : Consts} (hC : SzOk C = true) (hR : SzReaderOk C = true) (before : List SzEv)
+    (fs : List (List Coder)) (asks : Nat) (f : List Coder) (hf : f ∈ fs) (c : Coder) (hc : c ∈ f) (ha : IsAes c) :
+    szVerdict C (before ++ [.parsed fs] ++ List.replicate asks .ask) = true := by
+  rw [C08_7z_reader_history hR]
+  exact (C08_7z hC fs).mpr ⟨f, hf, c, hc, ha⟩
+
+example : szVerdict K [.parsed [[[0x03, 0x01, 0x01]]], .ask, .parsed [[[0x21], [0x06, 0xF1, 0x07, 0x01]]]] = true := by decide
+
+/-- class "memoised needs_password": one early question (while only the folder of the compressed header is known) freezes
+    the answer, the AES coder of the data folders is never seen -/
+theorem C08_7z_memo_counterexample :
+    szVerdict { K with szAskPure := false } [.parsed [[[0x03, 0x01, 0x01]]], .ask, .parsed [[[0x21], [0x06, 0xF1, 0x07, 0x01]]]] = false := by decide
+
+/-- class "first streams info wins" (`if not self._folders:` / extend-once): the header's own folder hides the data folders -/
+theorem C08_7z_first_write_counterexample :
+    szVerdict { K with szFoldersLastWriteWins := false } [.parsed [[[0x03, 0x01, 0x01]]], .parsed [[[0x06, 0xF1, 0x07, 0x01]]]] = false := by decide
+
 example : szOpen K true ⟨none, [[[0x21]], [[0x21], [0x06, 0xF1, 0x07, 0x01]]]⟩ = .encrypted := by decide
 example : szOpen K false ⟨some [[0x21], [0x06, 0xF1, 0x07, 0x01]], []⟩ = .encrypted := by decide
 example : szOpen K true ⟨some [[0x21]], [[[0x03, 0x01, 0x01]], [[0x00]]]⟩ = .done := by decide
